@@ -50,8 +50,10 @@ func c08afterHandshake(conn *tls.Conn, w *c08world) (string, string, string) {
 	select {
 	case p := <-ch:
 		return "ok", w.label(p), ""
-	case <-time.After(2 * time.Second):
-		return "ok", "-", "(nothing dispatched)"
+	case <-time.After(5 * time.Second):
+		// a refusal that arrived later than the 300 ms above: a connection on which the honest node dispatches
+		// nothing was not established
+		return "fail", "-", "(nothing dispatched)"
 	}
 }
 
